@@ -254,7 +254,9 @@ Inductive xop :=
 | XGetTagref (type idx rref : Z)                  (* ANget_tagref, compared with ANid2tagref(ANselect(idx)) *)
 | XFLen (kind : Z) (first : bool) (rref : Z)      (* DFANgetfidlen / DFANgetfdslen *)
 | XFGet (kind : Z) (first : bool) (maxlen rref : Z)   (* DFANgetfid / DFANgetfds into a 0xEE-filled buffer *)
-| XSwitch.                                        (* another file is used from now on *)
+| XSwitch                                         (* another file is used from now on *)
+| XLablistPage (tag maxlen listsize startpos : Z) (* DFANlablist paging: up to listsize refs from the startpos'th on *)
+| XRestart.                                       (* ANend, then ANstart on the same open file *)
 
 Record xstate := mkx { x_st : state; x_enum : Z -> option (list Z * option Z) }.
 Definition xinit : xstate := mkx init (fun _ => None).
@@ -271,6 +273,21 @@ Definition xstep (x : xstate) (o : xop) : xstate * res :=
       let e' := match o' with OStart | ODfAddF _ _ _ | ODfGetFs _ => (fun _ => None) | _ => x_enum x end in
       (mkx s' e', r)
   | XSwitch => (mkx s (fun _ => None), ROk [] [])
+  | XRestart =>
+      (* exactly ANend followed by ANstart: what was created but not written is gone, no identifier survives *)
+      if sess s then (mkx (mkstate (written (anns s)) [] true) (fun _ => None), ROk [] []) else (x, RFail)
+  | XLablistPage tag maxlen listsize startpos =>
+      if sess s then (x, RUnspec) else
+      if tag =? 0 then (x, RFail) else
+      if (maxlen <? 1) || (listsize <? 1) || (startpos <? 1) then (x, RUnspec) else
+      let allrefs := map snd (filter (fun o => fst o =? tag) objects) in
+      if zlen allrefs =? 0 then (x, RFail) else
+      let orefs := firstn (Z.to_nat listsize) (skipn (Z.to_nat (startpos - 1)) allrefs) in
+      (x, ROk (zlen orefs :: orefs)
+              (map (fun r => match on_target AN_DATA_LABEL tag r (anns s) with
+                             | [] => [[]]
+                             | l => map (fun a => firstn (Z.to_nat (maxlen - 1)) (text_of a)) l
+                             end) orefs))
   | XGetTagref type idx rref =>
       if negb (sess s) then (x, RFail) else
       if negb (valid_type type) then (x, RUnspec) else
